@@ -75,7 +75,7 @@ def profile(name):
         p['p_scheduler'] = 0.4
         p['p_flag_gate'] = 0.3
     elif name == 'resources':     # C11 / C10
-        p['stage_w'].update({'processor': 9, 'group': 1.5, 'handler': 1, 'buffer': 2, 'res_fanout': 2.5})
+        p['stage_w'].update({'processor': 9, 'group': 1.5, 'handler': 1, 'buffer': 2, 'res_fanout': 2.5, 'res_series': 2.0})
         p['p_resources'] = 1.0
         p['n_resources'] = (1, 3)
         p['res_cap'] = (1, 3)
@@ -83,7 +83,7 @@ def profile(name):
         p['n_sources'] = (1, 3)
     elif name == 'resfaults':     # C11 / C03: contention for pools under dense shutdown / failure / work-order scripts
         p['stage_w'].update({'processor': 9, 'group': 1.2, 'handler': 1, 'buffer': 2, 'gates': 0.7, 'batcher': 0.3,
-                             'res_fanout': 1.5})
+                             'res_fanout': 1.5, 'res_series': 1.0})
         p['p_resources'] = 1.0
         p['n_resources'] = (1, 2)
         p['res_cap'] = (1, 2)
@@ -103,11 +103,14 @@ def profile(name):
         p['p_batch_source'] = 0.25
         p['p_initial_value'] = 0.4
         p['p_poke'] = 0.5
-        p['ops_w'].update({'work_order': 4, 'create_asset': 1.5})
+        p['ops_w'].update({'work_order': 4, 'create_asset': 1.5, 'reprice_waiting': 2.5})
+        p['p_cost_step'] = 0.6
     elif name == 'records':       # C15
         p['p_maintainer'] = 0.95
         p['p_resources'] = 0.8
         p['p_trace'] = 0.34
+        p['p_split'] = 0.5
+        p['p_clear_data'] = 0.5
         p['p_scheduler'] = 0.6
         p['p_batch_source'] = 0.25
         p['ops_w'].update({'work_order': 4, 'fail': 3})
@@ -208,6 +211,8 @@ class Gen:
         if rng.random() < 0.85:
             it['wo'] = {t: [rng.choice([0, 0.5, 1, 2, 3]), rng.choice([0, 0.5, 1, 1, 2]), rng.choice([0, 1, 2.5])]
                         for t in ('x', 'y')}
+            if rng.random() < self.p.get('p_cost_step', 0.2):
+                it['wo_cost_step'] = rng.choice([0.5, 1, -0.25, 2.5])
         # (else: the library's default work-order duration / capacity / cost of 0)
         if rng.random() < self.p.get('p_refuse', 0):
             it['refuse'] = rng.choice([1, 2, 2, 3])    # every k-th planned stop is refused by a shutdown callback
@@ -243,6 +248,19 @@ class Gen:
                            'pred': {'t': 'rework', 'dev': b, 'm': m, 'again': False}})
             self.frontier.append(self.mk_simple([on]))
             self.loops.append({'t': None, 'prio': 5, 'op': 'rewire', 'target': b, 'new_up': back})
+        elif kind == 'res_series':
+            # a queue in front of two zero-cycle processors in series that draw on the same pool: finish, release
+            # and re-accept of one processor can all fall into one instant
+            if not self.resources:
+                return self.frontier.append(self.mk_simple(self.pick_ups()))
+            ups = self.pick_ups()
+            b = self.add({'id': self.nid('B'), 'kind': 'buffer', 'up': ups, 'cap': rng.choice([None, 8, 4]), 'delay': 0})
+            r = rng.choice(sorted(self.resources))
+            amt = rng.choice([1, 1, 0.5])
+            p1 = self.add({'id': self.nid('P'), 'kind': 'processor', 'up': [b], 'ct': 0, 'res': {r: amt}})
+            p2 = self.add({'id': self.nid('P'), 'kind': 'processor', 'up': [p1], 'ct': rng.choice([0, 0, 0.5]),
+                           'res': {r: amt}})
+            self.frontier.append(p2)
         elif kind == 'res_fanout':
             # a pass-through device (plain controller or an accept-all gate) feeding several parallel processors that
             # draw on the same pool, the pool being large enough for all of them at once
@@ -398,6 +416,8 @@ class Gen:
                   'qualities': [rng.choice(p['qualities']) for _ in range(rng.randint(1, 3))]}
             if rng.random() < p['p_batch_source']:
                 it['batch'] = [rng.choice([0, 1, 2, 3, 3, 5, 7]) for _ in range(rng.randint(1, 4))]
+                if rng.random() < 0.35:
+                    it['batch_sub'] = True      # the generator makes instances of a user-defined subclass of Batch
             self.frontier.append(self.add(it))
         for _ in range(rng.randint(*p['n_stages'])):
             if not self.frontier:
@@ -466,6 +486,11 @@ class Gen:
                                rng.choice([{'t': None, 'prio': 5, 'op': 'env_run', 'd': rng.choice([0.5, 1, 2.5])},
                                            {'t': None, 'prio': 5, 'op': 'env_step', 'n': rng.choice([1, 3, 7])}]))
                 spec['between'].append(gap)
+        if len(segs) >= 2 and rng.random() < p.get('p_clear_data', 0):
+            bt = spec.setdefault('between', [[] for _ in range(len(segs) - 1)])
+            rng.choice(bt).append({'t': None, 'prio': 5, 'op': 'clear_data',
+                                   'label': rng.choice([None, None, 'level', 'received_part', 'resource_update',
+                                                        'supplied_new_part'])})
         if len(segs) >= 2 and rng.random() < p.get('p_zero_run', 0.25):
             # a zero-length simulate() call right after operations that schedule events for the current instant
             k = rng.randrange(len(segs) - 1)
@@ -591,6 +616,8 @@ class Gen:
             elif op == 'set_cycle':
                 e['target'] = rng.choice(cyclers)
                 e['ct'] = rng.choice([0, 0, 0.5, 1, 2, 0.25])
+            elif op == 'reprice_waiting':
+                e['delta'] = rng.choice([0.5, 1, -0.25, 2.5, -1])
             elif op == 'late_path':
                 if not late_path_targets:
                     return None
